@@ -340,7 +340,7 @@ def stage_build(profile='debug'):
     if not os.path.exists(os.path.join(HARNESS, 'Cargo.lock')):
         shutil.copy(os.path.join(REPO, 'Cargo.lock'), os.path.join(HARNESS, 'Cargo.lock'))
     cmd = ['cargo', 'build', '--offline'] + (['--release'] if profile == 'release' else [])
-    rc, out = sh(cmd, cwd=HARNESS, timeout=1800, env={'RUSTFLAGS': '--cfg ' + GUARD})
+    rc, out = sh(cmd, cwd=HARNESS, timeout=1800, env={'RUSTFLAGS': '--cfg ' + GUARD, 'CARGO_TARGET_DIR': os.path.join(HARNESS, 'target')})
     return rc == 0, out
 
 # ---------------------------------------------------------------------------
